@@ -1508,7 +1508,6 @@ func checkResetBufferNotRetained(c *core.Ctx, r *core.Rule, prog *core.Prog, pkg
 	r.Note("[:0] resets inside loops examined: %d", n)
 }
 
-
 // checkCursorLoopsAcceptTrailingEmpty: the uri encoders write an empty last
 // item / field value as nothing after the delimiter ("a," for ["a", ""]). A
 // decoder loop that calls cursor.readValue again after a delimiter was consumed
@@ -1942,7 +1941,6 @@ func checkRootComponentsInRootCtx(c *core.Ctx, r *core.Rule, prog *core.Prog) {
 		r.Undecided("anchor:rootLoc-ctx", "-", "no function of openapi/parser both reads rootLoc and passes a resolve context")
 	}
 }
-
 
 // isRootCtxValue: v is the result of parser.resolveCtx(), directly or through a local variable (also one captured by
 // a closure) that is only ever assigned such results.
